@@ -6,6 +6,7 @@ import QmcProofs.LawGood
 import QmcProofs.LawCluster
 import QmcProofs.LawTimestep
 import QmcProofs.LawTravOK
+import QmcProofs.LawTravPerm
 
 /-!
 # Law — the law of the executable model IS the kernel of `KernelInvariance`
@@ -510,6 +511,54 @@ theorem isingStep_law_invariant_hb (s : Sampler.IsingSampler) (hv : s.spec.Valid
         (stepCfgT s.spec.ham (some (makeBondWeights s.spec.ham)) s.frozenBond β L)) :=
   isingStep_law_invariant_partial_hb s hv hg hW β hβ L
     (fun _ hc => cfgSpace_travOK (s.spec.hamWF hv) (isingSpec_varsPos s.spec) (mem_goodSpace.mp hc).1)
+
+
+/-! ### the update's own cluster family IS the component family (`hperm` discharged)
+
+`Qmc.Law.modelFlips_perm_componentFlips` (QmcProofs/LawTravPerm.lean): the traversal is also COMPLETE (every
+component of the leg graph gets exactly one representative) and its labels are sound, so for a closure that is
+never 0 on a cluster edge (`EdgeNotFrozen`; true of `IsingSampler.frozenBond`) the flips the exact model offers are,
+up to order, `Kernel.componentFlips` — the family `ClusterFamily.ofComponents` of
+`Kernel.ising_timestep_invariant_cut` and of the C01 capstone. -/
+
+/-- **cluster kernel of the update = component kernel**, on every configuration of `cfgSpace` -/
+theorem clusterKernel_eq_components (fr : SkOp → Bool) (H : Ham) (N L : Nat) (hV : VarsOK H N) (hp : VarsPos H)
+    (hfre : EdgeNotFrozen H fr) (c : Config) (hc : c ∈ cfgSpace H N L) (c' : Config) :
+    clusterK (ClusterFamily.ofModel fr H N L hV) c c' =
+      clusterK (ClusterFamily.ofComponents fr H N L hV) c c' :=
+  clusterKernel_eq_components_partial fr H N L hV c c' (cfgSpace_hperm hV hp fr hfre hc)
+
+/-- **law of one whole step = `sweepKM ; clusterK (ofComponents) ; refreshK`** on the Good configurations: the
+kernels of `Kernel.timestepK … (ClusterFamily.ofComponents …)`, restricted to `goodSpace` -/
+theorem step_law_eq_kernels_components (H : Ham) (β : Rat) (hβ : 0 ≤ β) (hw : ∀ b i, 0 ≤ H.w b i i)
+    (hNb : 0 < H.nbonds) (N L : Nat) (hV : VarsOK H N) (hp : VarsPos H) (fz : Nat → Bool)
+    (hfre : EdgeNotFrozen H (fun o => fz o.bond))
+    (hsym : ClusterSym H (fun o => fz o.bond) (cfgSpace H N L)) :
+    lawK (goodSpace H N L) (stepCfgT H none fz β L) =
+      compList [sweepKM H β (goodSpace H N L) L,
+        restr (goodSpace H N L) (clusterK (ClusterFamily.ofComponents (fun o => fz o.bond) H N L hV)),
+        restr (goodSpace H N L) (refreshK N)] := by
+  rw [step_law_eq_kernels H β hβ hw hNb N L hV hp fz hsym]
+  have : restr (goodSpace H N L) (clusterK (ClusterFamily.ofModel (fun o => fz o.bond) H N L hV)) =
+      restr (goodSpace H N L) (clusterK (ClusterFamily.ofComponents (fun o => fz o.bond) H N L hV)) := by
+    funext a b
+    exact clusterKernel_eq_components _ H N L hV hp hfre a.1 (mem_goodSpace.mp a.2).1 b.1
+  rw [this]
+
+/-- **the Ising whole step**: the law of `Sampler.isingTimestep` (configuration part, Metropolis diagonal update) on
+the Good configurations is `sweepKM ; clusterK (ofComponents) ; refreshK` — the composition whose invariance is
+`Kernel.ising_timestep_invariant_cut` -/
+theorem isingStep_law_eq_timestepK (s : Sampler.IsingSampler) (hv : s.spec.Valid) (hg : 0 ≤ s.spec.gamma)
+    (hNb : 0 < s.spec.ham.nbonds) (β : Rat) (hβ : 0 ≤ β) (L : Nat) :
+    lawK (goodSpace s.spec.ham s.spec.nvars L) (stepCfgT s.spec.ham none s.frozenBond β L) =
+      compList [sweepKM s.spec.ham β (goodSpace s.spec.ham s.spec.nvars L) L,
+        restr (goodSpace s.spec.ham s.spec.nvars L)
+          (clusterK (ClusterFamily.ofComponents (fun o => s.frozenBond o.bond) s.spec.ham s.spec.nvars L
+            (s.spec.hamWF hv))),
+        restr (goodSpace s.spec.ham s.spec.nvars L) (refreshK s.spec.nvars)] :=
+  step_law_eq_kernels_components s.spec.ham β hβ (fun b i => Refine.ising_w_nonneg s.spec hg b i i) hNb _ L
+    (s.spec.hamWF hv) (isingSpec_varsPos s.spec) s.frozenBond (ising_edgeNotFrozen s)
+    (clusterSym_cfgSpace _ _ _ L (Composed.ising_bondSym s).sym (Composed.ising_bondSym s).const)
 
 
 end Qmc.LawThm
